@@ -255,7 +255,13 @@ fn run_all(ctx: &mut Ctx) {
                             rec(&mut db, &inputs, &tasks, &mut used, depth, w);
                         });
                         if let Some(a) = &r.abnormal {
-                            ctx.violation("explorer-child-died", format!("the exploring process died: {a}"), json!({"project":p.name,"first_task":format!("{first:?}")}));
+                            // SIGALRM (14) is the watchdog of the forked explorer: under load a subtree can exceed it; that
+                            // cuts the exploration (reported as not exhaustive), it is not a verdict about the compiler
+                            if a.ends_with("signal 14") {
+                                ctx.mark_capped(&format!("explorer subtree of project {} / first task {first:?} hit its watchdog", p.name));
+                            } else {
+                                ctx.violation("explorer-child-died", format!("the exploring process died: {a}"), json!({"project":p.name,"first_task":format!("{first:?}")}));
+                            }
                         }
                         for rec_ in &r.records {
                             match rec_["t"].as_str() {
@@ -283,6 +289,9 @@ fn run_all(ctx: &mut Ctx) {
                                             json!({"project":p.name,"history":hist,"baseline":base_art,"observed":art}),
                                         );
                                     }
+                                }
+                                Some("abnormal") if rec_["what"].as_str().map(|w| w.ends_with("signal 14")).unwrap_or(false) => {
+                                    ctx.mark_capped("a history's child hit its watchdog");
                                 }
                                 Some("abnormal") | Some("child-panic") => {
                                     ctx.violation("query-history-crashes-compiler", format!("a query history crashed the compiler process: {rec_}"), json!({"project":p.name,"record":rec_}));
